@@ -10,7 +10,7 @@ import (
 )
 
 // Small scope, enumerated completely: every policy of the enumerators below x {Feldman, Pedersen}
-// x k in {1, 2} on k256, and inside each: EVERY holder x EVERY coordinate of its share
+// x k in {1, 2} on k256, and inside each (for k = 2 against the combined vector): EVERY holder x EVERY coordinate of its share
 // (secret and blinding) changed, every length change by one, every other holder's identity,
 // EVERY entry of the verification vector replaced (random point and identity) judged for every
 // holder in both directions, and the vector shortened / extended by the identity.
@@ -22,7 +22,6 @@ func smallPolicies() []*policy.Policy {
 	out = append(out, policy.AllCNF(3)...)
 	out = append(out, policy.AllHier(2)...)
 	out = append(out, policy.AllHier(3)...)
-	out = append(out, policy.AllHier(4)...)
 	out = append(out, policy.AllGates(2, 4)...)
 	out = append(out, policy.AllGates(3, 4)...)
 	var keep []*policy.Policy
@@ -59,19 +58,25 @@ func TestSmallScopeExhaustive(t *testing.T) {
 		}
 	}
 	if _, n := vlib.Shard(); n == 1 || vlib.Mine(0) {
-		vlib.Exhaustive(fmt.Sprintf("k256, %d policies (thresholds n<=4, all CNF n<=3, hierarchical n<=4, gate trees n<=3 with <=4 leaves) x {feldman,pedersen} x k in {1,2}: every holder x every share coordinate (+1, zero), length -1/+1, every other identity, every vector entry (random point, identity) judged for every holder, vector length -1/+1", len(pols)))
+		vlib.Exhaustive(fmt.Sprintf("k256, %d policies (thresholds n<=4, all CNF n<=3, hierarchical n<=3, gate trees n<=3 with <=4 leaves) x {feldman,pedersen} x k in {1,2}: every holder x every share coordinate (+1, zero), length -1/+1, every other identity, every vector entry (random point, identity) judged for every holder, vector length -1/+1", len(pols)))
 	}
 	t.Logf("small scope: %d verifier verdicts checked in this shard", total)
 }
 
 func (e *env[E, S]) smallScope(t tb, c *cfg) (int, caseInfo) {
 	w := newWorld(t, e, c)
-	w.baseline(t)
+	w.baseline(t, nil, true)
 	checks := 0
 	one := big.NewInt(1)
 	ped := c.scheme == schemePedersen
 	negs := 0
-	for _, dl := range w.targets() {
+	// k = 1: the dealing; k = 2: the combination (its parts are dealings like the k = 1 one; the
+	// baseline above has verified every holder against each of them)
+	target := w.deals[0]
+	if w.comb != nil {
+		target = w.comb
+	}
+	for _, dl := range []*dealing[E, S]{target} {
 		// shares
 		for h := range w.holderRows {
 			base := w.honest(dl, h)
@@ -135,7 +140,7 @@ func (e *env[E, S]) smallScope(t tb, c *cfg) (int, caseInfo) {
 					if affected {
 						negs++
 					}
-					w.presentLib(t, fmt.Sprintf("small scope: vector entry %d replaced by %s (changed=%v), holder %d coefficients %v", j, kind, changed, h, w.coeffs(h, j)), dl, h, vv2, !affected)
+					w.presentLibWith(t, fmt.Sprintf("small scope: vector entry %d replaced by %s (changed=%v), holder %d coefficients %v", j, kind, changed, h, w.coeffs(h, j)), dl, h, vv2, !affected, kind == "random" && h == j%len(w.holderRows))
 					checks++
 				}
 			}
